@@ -290,6 +290,12 @@ func extractFile(c context.Context, ls *ipld.LinkSystem, n ipld.Node, outputName
 	if outputName == "" {
 		f = os.Stdout
 	} else {
+		// os.Create follows a symbolic link in the final path component: an entry named like an
+		// already extracted (or pre-existing) symlink would be written through that link, possibly
+		// outside of the output directory.
+		if fi, err := os.Lstat(outputName); err == nil && fi.Mode()&os.ModeSymlink != 0 {
+			return fmt.Errorf("refusing to write through symbolic link %s", outputName)
+		}
 		f, err = os.Create(outputName)
 		if err != nil {
 			return err
